@@ -315,19 +315,22 @@ def replay(w):
     S = emd.sift
     kind = w.get('kind')
     x = _x(w.get('sig', 0))
+    if w.get('dtype'):         # the same recording stored as integer counts / in single precision
+        x = np.round(x * 500).astype(w['dtype']) if w['dtype'].startswith('int') else x.astype(w['dtype'])
+    scale = max(1.0, float(np.abs(x).max()))
     with warnings.catch_warnings():
         warnings.simplefilter('ignore')
         if kind == 'mask_imf':
             z, amp, P = w['z'], w['amp'], w['nphases']
             exp, eflag = spec_next_imf_mask(x, z, amp, P)
             got, flag = S.get_next_imf_mask(x.copy(), z, amp, nphases=P, nprocesses=w.get('nprocesses', 1))
-            if got.shape != exp.shape or not np.allclose(got, exp, rtol=1e-10, atol=1e-10):
+            if got.shape != exp.shape or not np.allclose(got, exp, rtol=1e-10, atol=1e-10 * scale):
                 return True, 'get_next_imf_mask(z=%s, amp=%s, nphases=%d) differs from the mean over phases of extraction(signal+mask)-mask: max diff %.3g' % (z, amp, P, np.abs(got - exp).max())
             if bool(flag) != bool(eflag):
                 return True, 'continue flag %s, any of the phase flags is %s' % (flag, eflag)
             if amp == 0:
                 plain, _ = S.get_next_imf(x[:, None].copy())
-                if not np.allclose(got, plain, rtol=1e-12, atol=1e-12):
+                if not np.allclose(got, plain, rtol=1e-12, atol=1e-12 * scale):
                     return True, 'zero-amplitude mask does not reduce to unmasked extraction (max diff %.3g)' % np.abs(got - plain).max()
             return False, 'ok'
         if kind == 'mask_sift':
@@ -387,6 +390,15 @@ def refute(tier, seed, emit):
                         emit.violation('masked-imf-is-mean-of-extraction-minus-mask' if amp else 'zero-amplitude-is-unmasked', w, msg)
         if emit.full:
             return
+    emit.scope('the same rule on a recording stored as int64 / int32 / float32 (integer counts of amplitude 500): nphases {1, 4} x amplitudes {0, 150} x mask frequency 0.11')
+    for dt in ('int64', 'int32', 'float32'):
+        for P in (1, 4):
+            for amp in (0, 150.0 if dt != 'float32' else 0.3):
+                emit.case(('mi-dtype', dt, P, amp), nontrivial=dt != 'float32', contract='get_next_imf_mask')
+                w = {'kind': 'mask_imf', 'sig': 0, 'z': 0.11, 'amp': amp, 'nphases': P, 'nprocesses': 1, 'dtype': dt}
+                ok, msg = replay(w)
+                if ok:
+                    emit.violation(('masked-imf-is-mean-of-extraction-minus-mask' if amp else 'zero-amplitude-is-unmasked') + ':%s-input' % dt, w, msg)
     grid = []
     for mode in ('abs', 'ratio_sig', 'ratio_imf'):
         for ma in (1, 0.5, [1.0, 0.5, 0.25, 0.7]):
